@@ -117,6 +117,22 @@ def run_shard(cfg):
             pending = []
         if len(samples) < 3 and i > 20 and type(v) in (dict, list) and len(b) < 200:
             samples.append({"value": short(v, 80), "encoding_hex": b.hex()[:160], "bytes": len(b)})
+    # ---- the documented size limits themselves are inside the domain (shard 0 only: they are large)
+    if cfg["shard"] == 0:
+        limits = [("str-1MiB", "a" * (2 ** 20)), ("str-1MiB-utf8", "é" * (2 ** 19)), ("bytes-1MiB", b"\x01" * (2 ** 20)),
+                  ("list-16384", list(range(16384))), ("tuple-16384", tuple(range(16384))), ("dict-16384", {i: None for i in range(16384)}),
+                  ("set-16384", set(range(16384))), ("str-1MiB-1", "b" * (2 ** 20 - 1)), ("list-16383", [None] * 16383)]
+        for name, v in limits:
+            c.inc("limit_values")
+            try:
+                b = encode(v)
+                got, pos = decode_all(b)
+                if pos != len(b) or G.canon(got[0]) != G.canon(v):
+                    viol("limit-value-roundtrip:%s" % name, "%s (exactly at / just below the documented limit) does not round-trip" % name, {"name": name})
+                else:
+                    c.inc("limit_values_roundtrip")
+            except Exception as e:
+                viol("limit-value-refused:%s" % name, "%s is inside the documented limits but raised %r" % (name, e), {"name": name})
     # ---- outside the domain: refused with an error, never silently mis-encoded
     for name, v in G.out_of_domain(r):
         c.inc("out_of_domain_values")
@@ -149,7 +165,7 @@ def run_shard(cfg):
 def finish(tier, seed, results):
     m = merge(results)
     inconclusive = []
-    need(m["counters"], ["values", "encoded", "roundtrips_equal", "concatenations", "dumpb_loadb", "out_of_domain_refused"], inconclusive)
+    need(m["counters"], ["values", "encoded", "roundtrips_equal", "concatenations", "dumpb_loadb", "out_of_domain_refused", "limit_values_roundtrip"], inconclusive)
     cov = {
         "evaluations": m["evaluations"],
         "distinct_nontrivial": m["distinct_nontrivial"],
